@@ -443,6 +443,13 @@ class DBusObject :
                 if obj.interface == iface.name:
                     obj.iprop = iface.properties[obj.pname]
                     break
+            else:
+                # nothing may be cached for this class on behalf of an
+                # object that does not support the property's interface
+                raise AttributeError(
+                    'Interface "%s" of property "%s" is not supported by '
+                    'this object' % (obj.interface, obj.pname),
+                )
 
             get_ic(obj.interface).properties[obj.pname] = obj
             obj.attr_name = cls_attr_name
